@@ -27,6 +27,7 @@ type c08Batch struct {
 	churn   int    // 1 = delete the grandchild GK (edge K1>GK), 2 = restore it
 	parent  string // edge batches: the parent of the edge written ("" = the instance root)
 	refused bool   // a batch the store must refuse (NaN value): nobody may be told of it
+	reauthor bool  // the points of the batch before (same values, same times) on the SAME node, sent by another author
 	repeat  bool   // the very same points (values, times, origin: byte for byte) as the batch before, written to another node of the subtree
 	dupTie  bool   // the batch carries one identity twice with the same timestamp (the later point of the batch is the one that counts)
 }
@@ -38,7 +39,7 @@ func c08Alphabet() []c08Batch {
 			o, tg := origin, target
 			out = append(out, c08Batch{o, tg, false, func(m float64) data.Points {
 				return data.Points{{Type: "value", Value: m, Origin: o}}
-			}, fmt.Sprintf("value on %s by %q", tg, o), 0, "", false, false, false})
+			}, fmt.Sprintf("value on %s by %q", tg, o), 0, "", false, false, false, false})
 		}
 	}
 	// two-point batches and other fields, by a foreign author and by the client itself
@@ -46,14 +47,14 @@ func c08Alphabet() []c08Batch {
 		o := origin
 		out = append(out, c08Batch{o, "N1", false, func(m float64) data.Points {
 			return data.Points{{Type: "description", Text: fmt.Sprintf("d%v", m), Origin: o}, {Type: "arr", Key: "1", Value: m, Origin: o}}
-		}, fmt.Sprintf("description+arr[1] on N1 by %q", o), 0, "", false, false, false})
+		}, fmt.Sprintf("description+arr[1] on N1 by %q", o), 0, "", false, false, false, false})
 		out = append(out, c08Batch{o, "K1", false, func(m float64) data.Points {
 			return data.Points{{Type: "description", Text: fmt.Sprintf("k%v", m), Origin: o}, {Type: "value", Value: m, Origin: o}}
-		}, fmt.Sprintf("description+value on K1 by %q", o), 0, "", false, false, false})
+		}, fmt.Sprintf("description+value on K1 by %q", o), 0, "", false, false, false, false})
 	}
 	out = append(out, c08Batch{"other", "N1", true, func(m float64) data.Points {
 		return data.Points{{Type: "role", Text: fmt.Sprintf("r%v", m), Origin: "other"}}
-	}, `edge point role on N1 by "other"`, 0, "", false, false, false})
+	}, `edge point role on N1 by "other"`, 0, "", false, false, false, false})
 	// batches the store refuses (a NaN value next to a regular point): a refused write is not a change
 	for _, tg := range []string{"N1", "K1"} {
 		tg := tg
@@ -70,6 +71,8 @@ func c08Alphabet() []c08Batch {
 	}
 	// the batch before, byte for byte, on another node of the client's subtree (two sensors report the same reading at the same instant)
 	out = append(out, c08Batch{repeat: true, name: "the same points again on another node of the subtree"})
+	// the batch before, same values and times, same node, another author: only the origin differs (the store overwrites on the tie)
+	out = append(out, c08Batch{reauthor: true, name: "the same points again on the same node by another author"})
 	// an edge point (not a tombstone) on the edge between the client's node and its child, and one level further down
 	out = append(out, c08Batch{origin: "other", target: "K1", edge: true, parent: "N1", pts: func(m float64) data.Points {
 		return data.Points{{Type: "role", Text: fmt.Sprintf("r%v", m), Origin: "other"}}
@@ -200,8 +203,30 @@ func c08Body(t *testing.T, depth int, order bool, churn ...bool) mc.Body {
 				}
 				marker := float64(100 + d)
 				var pts data.Points
-				if b.repeat {
-					if d == 0 || hist[d-1].churn != 0 || hist[d-1].refused || hist[d-1].edge || hist[d-1].repeat || hist[d-1].target == "S" || hist[d-1].target == "GK" {
+				if b.reauthor {
+					if d == 0 || hist[d-1].churn != 0 || hist[d-1].refused || hist[d-1].edge || hist[d-1].repeat || hist[d-1].reauthor || hist[d-1].target == "S" || hist[d-1].origin == "other2" {
+						out = mc.Outcome{Trivial: true, Obs: "inapplicable"}
+						return
+					}
+					prev := hist[d-1]
+					b = prev
+					b.reauthor = true
+					b.origin = "other2"
+					b.pts = func(m float64) data.Points {
+						ps := prev.pts(m)
+						for i := range ps {
+							ps[i].Origin = "other2"
+						}
+						return ps
+					}
+					b.name = fmt.Sprintf("the points of the batch before (same values and times) on %s by \"other2\"", b.target)
+					marker = markers[d-1]
+					pts = append(data.Points{}, prevPts...)
+					for i := range pts {
+						pts[i].Origin = "other2"
+					}
+				} else if b.repeat {
+					if d == 0 || hist[d-1].churn != 0 || hist[d-1].refused || hist[d-1].edge || hist[d-1].repeat || hist[d-1].reauthor || hist[d-1].target == "S" || hist[d-1].target == "GK" {
 						out = mc.Outcome{Trivial: true, Obs: "inapplicable"}
 						return
 					}
@@ -221,7 +246,7 @@ func c08Body(t *testing.T, depth int, order bool, churn ...bool) mc.Body {
 				sameTime := !isChurn && d > 0 && x.Choose(2, "timestamp: later than / equal to the newest point of the same identity") == 1
 				err := g.s.do(func() error {
 					for i := range pts {
-						if b.repeat {
+						if b.repeat || b.reauthor {
 							break // (the times of the batch before are kept)
 						}
 						id := fmt.Sprintf("%s|%v|%s|%s|%s", b.target, b.edge, b.parent, pts[i].Type, pts[i].Key)
@@ -319,29 +344,30 @@ func c08Body(t *testing.T, depth int, order bool, churn ...bool) mc.Body {
 					toldOrder = append(toldOrder, m)
 					toldAt[fmt.Sprintf("%v@%s", m, e.node)]++
 					toldAtOrder = append(toldAtOrder, fmt.Sprintf("%v@%s", m, e.node))
-					// content check (two batches share a marker when the second repeats the first on another node: the
-					// event is compared with the batch of that marker written to the node the event names, if any)
+					// content check: the event must be one of the batches of that marker written to the node it names
+					// (two batches share a marker when the second repeats the first on another node or under another author)
+					matched, any := false, false
 					for i, b := range hist {
-						if markers[i] == m {
-							shared := false
-							for j := range hist {
-								shared = shared || (j != i && markers[j] == m)
-							}
-							if shared && e.node != b.target {
-								continue
-							}
-							want := b.pts(m)
-							if len(want) != len(e.pts) || e.node != b.target {
-								out = mc.Outcome{Violation: fmt.Sprintf("batch %q delivered as node=%s points=[%s]", b.name, e.node, ptsString(e.pts)), Key: "told-different-content"}
-								return
-							}
-							for j := range want {
-								if want[j].Type != e.pts[j].Type || want[j].Key != e.pts[j].Key || want[j].Value != e.pts[j].Value || want[j].Text != e.pts[j].Text || want[j].Origin != e.pts[j].Origin {
-									out = mc.Outcome{Violation: fmt.Sprintf("batch %q delivered with different points [%s]", b.name, ptsString(e.pts)), Key: "told-different-content"}
-									return
-								}
+						if markers[i] != m || e.node != b.target {
+							continue
+						}
+						any = true
+						want := b.pts(m)
+						if len(want) != len(e.pts) {
+							continue
+						}
+						same := true
+						for j := range want {
+							if want[j].Type != e.pts[j].Type || want[j].Key != e.pts[j].Key || want[j].Value != e.pts[j].Value || want[j].Text != e.pts[j].Text || want[j].Origin != e.pts[j].Origin {
+								same = false
 							}
 						}
+						matched = matched || same
+					}
+					if !matched {
+						_ = any
+						out = mc.Outcome{Violation: fmt.Sprintf("the client was told node=%s points=[%s]: no batch of the history wrote that there (history: %s)", e.node, ptsString(e.pts), strings.Join(x.History(), "; ")), Key: "told-different-content"}
+						return
 					}
 				case "construct":
 					restarted = true
@@ -358,14 +384,28 @@ func c08Body(t *testing.T, depth int, order bool, churn ...bool) mc.Body {
 					continue
 				}
 				at := fmt.Sprintf("%v@%s", m, b.target)
+				want, maybe := 0, 0 // batches of this marker on this node that must be told / that the statement leaves open
+				for j, bj := range hist {
+					if markers[j] != m || bj.target != b.target || bj.churn != 0 || unclassified[j] {
+						continue
+					}
+					switch {
+					case bj.mustTell():
+						want++
+					case !bj.mustNotTell():
+						maybe++
+					}
+				}
 				if b.mustTell() {
-					mustOrder = append(mustOrder, at)
-					if toldAt[at] != 1 {
-						out = mc.Outcome{Violation: fmt.Sprintf("foreign change %q (history: %s) was told %d times to the client", b.name, strings.Join(x.History(), "; "), toldAt[at]), Key: fmt.Sprintf("foreign-change-not-told-once/target=%s", b.target)}
+					if maybe == 0 {
+						mustOrder = append(mustOrder, at)
+					}
+					if toldAt[at] < want || toldAt[at] > want+maybe {
+						out = mc.Outcome{Violation: fmt.Sprintf("foreign change %q (history: %s) was told %d times to the client, expected %d", b.name, strings.Join(x.History(), "; "), toldAt[at], want), Key: fmt.Sprintf("foreign-change-not-told-once/target=%s", b.target)}
 						return
 					}
 				}
-				if b.mustNotTell() && toldAt[at] > 0 {
+				if b.mustNotTell() && want == 0 && toldAt[at] > 0 {
 					out = mc.Outcome{Violation: fmt.Sprintf("the client was told of its own change %q", b.name), Key: "own-change-echoed"}
 					return
 				}
